@@ -10,7 +10,7 @@ import sys
 from abc import ABCMeta, abstractmethod
 from contextlib import contextmanager
 from types import CodeType, FrameType
-from typing import Any, Callable, Dict, Iterator, Optional, Union, cast
+from typing import Any, Callable, Dict, Iterator, Optional, Tuple, Union, cast
 
 import opcode
 
@@ -263,15 +263,18 @@ class CallTracer:
         self.logger = logger
         self.traces: Dict[FrameType, CallTrace] = {}
         self.sample_rate = sample_rate
-        self.cache: Dict[CodeType, Optional[Callable[..., Any]]] = {}
+        self.cache: Dict[Tuple[str, CodeType], Optional[Callable[..., Any]]] = {}
         self.should_trace = code_filter
         self.max_typed_dict_size = max_typed_dict_size
 
     def _get_func(self, frame: FrameType) -> Optional[Callable[..., Any]]:
         code = frame.f_code
-        if code not in self.cache:
-            self.cache[code] = get_func(frame)
-        return self.cache[code]
+        # Code objects compare equal when they differ only in co_filename, so the
+        # same function text at the same lines of two modules must not share an entry.
+        key = (code.co_filename, code)
+        if key not in self.cache:
+            self.cache[key] = get_func(frame)
+        return self.cache[key]
 
     def handle_call(self, frame: FrameType) -> None:
         if _is_resumption(frame):
